@@ -354,6 +354,8 @@ impl MgfReader {
         }
 
         let mut query_data = QueryData::default_with_params(default_params);
+        // apply the header's CHARGE/TOL/TOLU to the first query as well
+        query_data.init();
 
         // query
         for line in lines {
